@@ -1178,6 +1178,12 @@ def campaign_order(ck: Check, n: int) -> None:
 def known_findings(ck: Check) -> None:
     """Re-run the stored witness of every open finding on the real code."""
     for f in ck.findings:
+        if "capture_case" in f["witness"]:
+            from . import c05_capture
+
+            if c05_capture.witness_reproduces(ck, f):
+                ck.known(f["id"], f["what"])
+            continue
         if "refdefault" in f["witness"]:
             from . import c05_refdefault
 
@@ -1284,7 +1290,7 @@ def search_inherit(ck: Check) -> None:
 
 def run(ck: Check) -> None:
     from ..translate import parse_passes
-    from . import c05_groups, c05_inherit, c05_refdefault, c05_refs, c05_union
+    from . import c05_capture, c05_groups, c05_inherit, c05_refdefault, c05_refs, c05_union
 
     quick = ck.tier == "quick"
     ck.translate("FieldTemplates", field_templates.generate())
@@ -1334,7 +1340,11 @@ def run(ck: Check) -> None:
     # inherited members re-listed as required by a subclass schema
     icamps = c05_inherit.make_campaigns(ck, camps)
     c05_inherit.run_batch(ck, icamps, c05_inherit.core_block(quick=quick) + c05_inherit.random_groups(ck, 150 if quick else 2500))
+    # name capture: a member named like a name that a LATER member's default expression reads in the class body
+    c05_capture.campaign(ck, quick)
+    c05_capture.campaign_reads(ck, 600 if quick else 6000)
     ck.notes["space"] = {
+        "capture_block": "member named like a builtin (list, dict, set, str, int) / the Field / field helper / the enum, the referenced class, the class itself x kind (TypedDict once: nothing is evaluated there) in front of members with defaults of every written form (empty / non-empty list and dict, constrained string, aliased member, enum member, model-typed, integer, none); quick: options off + one drawn option; thorough: x capturer form (optional / string default / required) x before / after x each option",
         "base_block": "kind x dialect/null-source x required x default class x type x constraint x 7 options (own required list, plain name): 105600 valid vectors",
         "renaming_block": f"listed members x where listed (3) x name kind (4) x snake-case-field x {{strict-nullable, use-default, force-optional}}: {len(renaming_vectors()) if not quick else 124800} vectors",
         "union_block": "union-typed members: core (all lists of <= 2 alternatives over {T, [T,null], null} x kind x spelling x required) always; thorough adds kind x lists of alternatives (<= 2 over two types and null, 3 over {T,[T,null],null,U}, OpenAPI lists with a nullable:true alternative) x spelling x required x {no default, null default} x strict-nullable with the other dimensions drawn",
@@ -1344,7 +1354,7 @@ def run(ck: Check) -> None:
         "sibling_block": "every ordered pair of scalar member archetypes (null source x required/optional/default/null default) of one primitive type x dialect x strict-nullable x kind x layout (same class / one per schema); quick: a quarter of it, string only; plus random groups of 2-3 members (scalar, array, dict, union-typed) in all orders",
         "tier_covers": "all blocks exhaustively (spelling options, realisations and the non-enumerated dimensions of the union block drawn per vector)" if not quick else "stratified sample over the product of all dimensions + corpus + union core block + a quarter of the sibling block",
     }
-    ck.search_hooks += [search_refdefault, search_refs, search_inherit, search_siblings, search_union, search_exhaustive]
+    ck.search_hooks += [c05_capture.search, search_refdefault, search_refs, search_inherit, search_siblings, search_union, search_exhaustive]
     known_findings(ck)
 
 
@@ -1357,6 +1367,10 @@ def replay(ck: Check, path: str) -> int:
         bad = "members" in r and (bad_order([h for _, h in r["members"]]) or r["loads"] != "ok")
         print("REPLAY-FAILS: member order / class creation" if bad else "replay: the oracle does not fail on this input")
         return 1 if bad else 0
+    if inp.get("capture_case"):
+        from . import c05_capture
+
+        return c05_capture.replay_case(ck, inp["capture_case"])
     if inp.get("refdefault"):
         from . import c05_refdefault
 
